@@ -100,7 +100,7 @@ claim('C08', 'bounded symbolic execution of the real reader and DOM loader on co
       'fallback would be flagged in the evidence.', 'DESIGN.md section 4, C08; II.5c')
 
 claim('C07', 'bounded symbolic execution of the real reader on every truncation F[:p] of files with symbolic content, records compared with the intact file\'s records by z3; length perturbations',
-      'For three skeleton files with a symbolic content section (1..3 bytes quick / 1..5 thorough + LF) and every cut '
+      'For three skeleton files with a symbolic content section (1..3 bytes quick / 1..6 thorough + LF) and every cut '
       'point 0..len(F), the real reader is run on the intact file and on the truncated file in the same symbolic '
       'path (container headers carry options, so that a cut header may still look like a header); z3 decides that the '
       'records of the truncated file are a prefix of the intact ones (ids, options, content), '
